@@ -177,4 +177,11 @@ def r5(ctx):
     relabel(ctx, "C10.R5", c04.r3, lambda c: forward_data_context(c, "C10.R5", "context"), lambda c: forward_data_context(c, "C10.R5", "data"))
 
 
-RULES = [("C10.R1", r1), ("C10.R2", r2), ("C10.R3", r3), ("C10.R4", r4), ("C10.R5", r5)]
+
+def f1(ctx):
+    """generic same-name parameter forwarding over this property's modules (see shared.generic_forwarding)."""
+    from . import shared as _sh
+    _sh.generic_forwarding(ctx, "C10.F1", _sh.PROPERTY_MODULES["C10"])
+
+
+RULES = [("C10.R1", r1), ("C10.R2", r2), ("C10.R3", r3), ("C10.R4", r4), ("C10.R5", r5), ("C10.F1", f1)]
